@@ -46,6 +46,14 @@ _MATS_KIND_LOOP = ("            dblist = []\n            for cand in self.dblist
 _MATS_BYNAME = ("        mats = {}\n        byname = {nm: [sns for sns in matrices if sns.name == nm] for nm in unique_names}\n"
                 "        for name in unique_names:\n            dblist = byname[name]\n")
 
+# ---- texts of the pass "positioned read by value" (rdop2mats / _rdmat, directory namespace)
+_RDMAT = "        self.set_position(sns.start)\n        self.rdop2nt()\n        return self.rdop2matrix(sns.trailer)\n"
+_NT_FRM = "        frm = self._intstru % key\n        bytes = self._ibytes * key\n        trailer = struct.unpack(frm, self._fileh.read(bytes))\n"
+_DIR_NS = ("            sns = SimpleNamespace(\n                name=name,\n                start=pos,\n                stop=cur,\n                nbytes=cur - pos - 1,\n"
+           "                dbtype=dbtype,\n                size=size,\n                trailer=trailer,\n                headers=headers,\n            )\n")
+_DIR_NS_TABLE = ("            fields = {\"name\": name, \"start\": pos, \"stop\": cur, \"nbytes\": cur - pos - 1, \"dbtype\": dbtype,\n"
+                 "                      \"size\": @SIZE@, \"trailer\": trailer, \"headers\": headers}\n            sns = SimpleNamespace(**fields)\n")
+
 RECIPES = [
     # ------------------------------------------------------------------ break: decode sizes (R2)
     ("C11", "break", ["C11-R2"], OP2, "        hbytes = 3 * self._ibytes\n", "        hbytes = 12\n", "DYNAMICS header read with a fixed 12 bytes (wrong with 64-bit keys)"),
@@ -318,4 +326,27 @@ RECIPES += [
     ("C11", "neutral", [], OP2, _MATS_FILTER, "            dblist = [sns for sns in self.dblist if sns.name == name]\n            dblist = [sns for sns in dblist if sns.dbtype != 0]\n",
      "rdop2mats: occurrences by name over the whole directory list, then filtered by kind (!= 0)"),
     ("C11", "neutral", [], OP2, _MATS_HEAD, _MATS_BYNAME, "rdop2mats: occurrences per name from a dict comprehension over the matrix-only list"),
+    # ------------------------------------------------------------------ positioned read decided on the steps it makes: an absolute positioning by
+    # any means (set_position, a seek of the file itself, inlined or in a helper), rdop2nt, rdop2matrix with its arguments by signature
+    ("C11", "neutral", [], OP2, _RDMAT, "        self._fileh.seek(sns.start)\n        self.rdop2nt()\n        return self.rdop2matrix(sns.trailer)\n", "_rdmat: set_position inlined (seek of the file itself)"),
+    ("C11", "neutral", [], OP2, _RDMAT, "        self._fileh.seek(sns.start, os.SEEK_SET)\n        self.rdop2nt()\n        return self.rdop2matrix(sns.trailer)\n", "_rdmat: seek with an explicit os.SEEK_SET"),
+    ("C11", "neutral", [], OP2, _RDMAT, "        self.set_position(pos=sns.start)\n        self.rdop2nt()\n        return self.rdop2matrix(trailer=sns.trailer)\n", "_rdmat: arguments by keyword"),
+    ("C11", "neutral", [], OP2, _RDMAT, "        offset, stored = sns.start, sns.trailer\n        self._fileh.seek(offset, 0)\n        _nm, trailer, _kind = self.rdop2nt()\n        return self.rdop2matrix(trailer)\n", "_rdmat: seek(offset, 0) and the trailer just re-read"),
+    ("C11", "neutral", [], OP2, _RDMAT, "        fh = self._fileh\n        fh.seek(sns.start)\n        return self.rdop2matrix(self.rdop2nt()[1])\n", "_rdmat: file handle in a local, trailer = rdop2nt()[1]"),
+    ("C11", "break", ["C11-R5"], OP2, _RDMAT, "        self._fileh.seek(sns.stop)\n        self.rdop2nt()\n        return self.rdop2matrix(sns.trailer)\n", "_rdmat (inlined seek): positioned to the end of the data block"),
+    ("C11", "break", ["C11-R5"], OP2, _RDMAT, "        self._fileh.seek(sns.start)\n        return self.rdop2matrix(sns.trailer)\n", "_rdmat (inlined seek): name and trailer records not passed before the columns are decoded"),
+    ("C11", "break", ["C11-R5"], OP2, _RDMAT, "        self.set_position(sns.start)\n        self.rdop2nt()\n        return self.rdop2matrix(sns.size)\n", "_rdmat: decoded with the size pair instead of the trailer"),
+    ("C11", "break", ["C11-R5"], OP2, _RDMAT, "        self._fileh.seek(sns.start)\n        nt = self.rdop2nt()\n        return self.rdop2matrix(nt[2])\n", "_rdmat (inlined seek): decoded with the kind word rdop2nt returns instead of the trailer"),
+    # a selection by filter(): of the matrix-only list it is one; of a mixed collection, by name only, it stays mixed
+    ("C11", "neutral", [], OP2, _MATS_FILTER, "            dblist = list(filter(lambda sns: sns.name == name, matrices))\n", "rdop2mats: occurrences selected with filter() from the matrix-only list"),
+    ("C11", "neutral", [], OP2, _MATS_FILTER, "            dblist = tuple(filter(lambda s: s.name == name, matrices))\n", "rdop2mats: occurrences as a tuple of filter()"),
+    ("C11", "break", ["C11-R5"], OP2, _MATS_FILTER, "            dblist = list(filter(lambda sns: sns.name == name, self.dblist))\n", "rdop2mats: filter() by name only over the whole directory list"),
+    ("C11", "neutral", [], OP2, _MATS_FILTER, "            dblist = list(filter(lambda s: s.dbtype == 1 and s.name == name, self.dblist))\n", "rdop2mats: filter() by kind and name over the whole directory list"),
+    ("C11", "neutral", [], OP2, _MATS_FILTER, "            dblist = list(filter(lambda s: s.name == name and s.dbtype > 0, self.dbdct[name]))\n", "rdop2mats: filter() by name and kind (> 0) over dbdct[name]"),
+    # f"{n:d}" of a count read from the file is the repeat count of the struct format
+    ("C11", "neutral", [], OP2, _NT_FRM, _NT_FRM.replace("self._intstru % key", "f\"{self._endian}{key:d}{self._i}\""), "rdop2nt: trailer format as an f-string with {key:d}"),
+    ("C11", "break", ["C11-R2"], OP2, _NT_FRM, _NT_FRM.replace("self._intstru % key", "f\"{self._endian}{key:d}i\""), "rdop2nt: trailer format as an f-string with a hard-wired 4-byte code (64-bit keys)"),
+    # the record of a data block built from a literal table of its fields
+    ("C11", "neutral", [], OP2, _DIR_NS, _DIR_NS_TABLE.replace("@SIZE@", "size"), "directory: SimpleNamespace(**fields) from a literal table"),
+    ("C11", "break", ["C11-R5"], OP2, _DIR_NS, _DIR_NS_TABLE.replace("@SIZE@", "size[::-1]"), "directory (namespace from a table): size stored as (cols, rows)"),
 ]
